@@ -285,8 +285,11 @@ impl WTClient {
     /// Flags a given tower as misbehaving, storing the misbehaving proof in the database.
     pub fn flag_misbehaving_tower(&mut self, tower_id: TowerId, proof: MisbehaviorProof) {
         if let Some(tower) = self.towers.get_mut(&tower_id) {
-            self.dbm.store_misbehaving_proof(tower_id, &proof).unwrap();
-            tower.status = TowerStatus::Misbehaving;
+            // Several requests may be in flight when the tower misbehaves. One proof is enough, so the first one is kept.
+            if !tower.status.is_misbehaving() {
+                self.dbm.store_misbehaving_proof(tower_id, &proof).unwrap();
+                tower.status = TowerStatus::Misbehaving;
+            }
         } else {
             log::error!("Cannot flag tower. Unknown tower_id: {tower_id}");
         }
